@@ -809,3 +809,53 @@ def schema_family(prop, tier, seed):
                             "patternProperties '.{1,}'); any other validation keyword makes the check stop with exit 2",
                             "documents with ill-formed annotation keys: only 'rejects when the files reject' and equal verdicts for both encodings are required",
                             "library-valid (C18) = Cache.WriteSpec of the decoded value succeeds without a validator installed"]}
+
+
+# ---------------------------------------------------------------------------------------
+# C19: the command line tools
+
+@check("C19")
+def c19(prop, tier, seed):
+    import random
+    vlib.build_harness()
+    bins = vlib.build_cli()
+    rs = parallel(lambda: run_tlc("MCCacheSeq", "CacheSeq_q0.cfg", deadlock=True, timeout=3000, workers=8),
+                  lambda: run_tlc("MCSpecDoc", "SpecDoc_quick.cfg", deadlock=True, timeout=3000, workers=4))
+    for r in rs:
+        model_must_hold(r, "generation")
+    rng = random.Random(seed)
+    rows = [r for r in rs[0].rows if r["dirs"]]
+    rng.shuffle(rows)
+    # populations without a failing file are the ones whose listings are printed: keep both kinds
+    clean = [r for r in rows if not r["hist"][0]["view"]["errmust"] and not r["hist"][0]["view"]["errmay"] and all(r["fs0"][d]["st"] == "dir" for d in r["dirs"])]
+    faulty = [r for r in rows if r["hist"][0]["view"]["errmust"]]
+    n = 120 if tier == "quick" else 2500
+    sel = clean[:n] + faulty[:n // 4]
+    f1, f2, f3 = scratch_file("cli-rows.ndjson"), scratch_file("cli-tokens.ndjson"), scratch_file("cli-docs.ndjson")
+    write_rows(sel, f1)
+    write_rows(rs[1].rows, f2)
+    try:
+        vlib.sh([vlib.build_harness(), "schema-docs", "-cases", f2, "-out", f3, "-max-mutations", "300"], env=vlib.goenv(), timeout=900)
+        docs = [json.loads(l) for l in open(f3)]
+        rng.shuffle(docs)
+        write_rows(docs[:40 if tier == "quick" else 600], f3)
+        res, err = run_harness("cli", ["-cases", f1, "-seed", seed, "-cdi", bins["cdi"], "-validate", bins["validate"], "-docs", f3, "-repo", vlib.REPO], timeout=3000)
+    finally:
+        for f in (f1, f2, f3):
+            if os.path.exists(f):
+                os.unlink(f)
+    tool_errors(res["mismatches"])
+    mine = tagged(res["mismatches"], prop)
+    cov = {"states": rs[0].distinct, "transitions": max(rs[0].generated, 1), "traces_validated_against_impl": res["evaluations"],
+           "evaluations": res["evaluations"], "distinct_nontrivial": res["distinct_nontrivial"], "tool_invocations": res["steps"],
+           "validate_tool_documents": res.get("extra", {}).get("validate_tool_documents"),
+           "rule": "a seeded sample of the directory populations enumerated by spec/CacheSeq.tla (all directory lists, shadowing, conflicts, "
+                   "invalid files): `cdi -d <dirs>` devices / vendors / classes / specs / validate / inject (-o json and yaml, three pattern sets) are "
+                   "run and parsed; listings, files in error, exit status and the injected OCI spec are compared with the library on the same "
+                   "directories (configured as the tool configures it) and the device list with the model; `validate --schema builtin|none|<file>` "
+                   "(file argument and stdin) against schema.ValidateFile/ValidateData on sampled documents. non-trivial = a population with devices",
+           "samples": [sel[0]], "exhaustive": False,
+           "checker_cmd": "go build ./cmd/cdi ./cmd/validate ; tlc MCCacheSeq (CacheSeq_q0.cfg) ; harness cli"}
+    return {"level": "model_checking", "coverage": cov, "mismatches": mine, "replay_with": "",
+            "assumptions": ["the output format of the tools is parsed with regular expressions written against the current format",
+                            "`monitor` (never terminates) and `resolve` are not exercised"]}
